@@ -31,13 +31,37 @@ def slopes_seen(solver, log, n, upto):
     return M
 
 
+def run_until_accuracy(s, case):
+    """case['mode']: 'solve' | 'batches' (DoGlobalIteration(b) until the reported accuracy is below eps, then Solve)
+    | 'refine-early' (a few iterations, a local refinement, then Solve)"""
+    mode = case.get('mode', 'solve')
+    try:
+        if mode == 'batches':
+            with H.quiet():
+                for _ in range(400):
+                    if s.method.min_delta < case['eps'] or s.method.iterationsCount >= case['iters']:
+                        break
+                    s.DoGlobalIteration(case.get('batch', 16))
+            return H.run_script(s, [('solve',)])
+        if mode == 'refine-early':
+            return H.run_script(s, [('iter', case.get('early', 6)), ('refine', 30), ('solve',)])
+        return H.run_script(s, [('solve',)])
+    except Exception as e:  # noqa
+        if 'x is outside of interval' in str(e):      # batches driven past float resolution: outside C01
+            return None, ''
+        raise
+
+
 def evaluate(case, L0, fmin):
     """returns (status, detail): status in ok | skip | violation | final-M-only"""
     n = case['n']
     p, s = O.build(case)
-    sol, out = H.run_script(s, [('solve',)])
-    if 'Exception was thrown' in out or not (sol.solutionAccuracy < case['eps']):
+    sol, out = run_until_accuracy(s, case)
+    if sol is None or 'Exception was thrown' in out or not (sol.solutionAccuracy < case['eps']):
         return 'skip', 'did not stop by accuracy'
+    # evaluations of a local phase (refine-early mode) are not trials of the global search: keep those that are in the record
+    in_record = {tuple(float(v) for v in it.GetY().floatVariables) for it in H.items(s) if it.GetIndex() == 0}
+    p.log = [e for e in p.log if tuple(float(v) for v in e[0]) in in_record]
     nt = len(p.log)
     M_sel = slopes_seen(s, p.log, n, nt - 1)
     M_fin = slopes_seen(s, p.log, n, nt)
@@ -62,9 +86,11 @@ def adversarial_1d(case, lip0):
     function dips to (zl+zr)/2 - L*(ur-ul)/2 inside each interval. With L = the largest constant the reliability condition admits
     (r*M/2, M taken when the last interval was selected) the best value must stay within (r*M/2)*eps of every such dip."""
     p, s = O.build(case)
-    sol, out = H.run_script(s, [('solve',)])
-    if 'Exception was thrown' in out or not (sol.solutionAccuracy < case['eps']):
+    sol, out = run_until_accuracy(s, case)
+    if sol is None or 'Exception was thrown' in out or not (sol.solutionAccuracy < case['eps']):
         return 'skip', {}
+    in_record = {tuple(float(v) for v in it.GetY().floatVariables) for it in H.items(s) if it.GetIndex() == 0}
+    p.log = [e for e in p.log if tuple(float(v) for v in e[0]) in in_record]
     nt = len(p.log)
     M_sel = slopes_seen(s, p.log, 1, nt - 1)
     side = case['hi'][0] - case['lo'][0]
@@ -72,7 +98,7 @@ def adversarial_1d(case, lip0):
     if L < lip0 * side:
         return 'skip', {'cond': False}
     pts = sorted(((y[0] - case['lo'][0]) / side, z) for y, z in p.log)
-    best = min(z for _, z in pts)
+    best = float(sol.bestTrials[0].functionValues[0].value)      # what Solve reports
     dips = [((zl + zr) / 2 - L * (ur - ul) / 2, ul, ur) for (ul, zl), (ur, zr) in zip(pts, pts[1:])]
     dips.append((pts[0][1] - L * pts[0][0], 0.0, pts[0][0]))
     dips.append((pts[-1][1] - L * (1.0 - pts[-1][0]), pts[-1][0], 1.0))
@@ -94,7 +120,25 @@ def flat_case(rng):
         desc['centers'].append([lo[0] + side * rng.uniform(0.05, 0.95)]); desc['slopes'].append(0.5 * r * rng.uniform(0.5, 0.999) / side); desc['offsets'].append(-rng.uniform(0.001, 0.05))
     else:
         r = round(rng.uniform(2.0, 2.6), 2)
-    return {'n': 1, 'lo': lo, 'hi': hi, 'objective': desc, 'r': r, 'eps': rng.choice([2e-3, 5e-4, 1e-4, 5e-5, 2e-5]), 'iters': 200000, 'density': None}, max(desc['slopes'])
+    case = {'n': 1, 'lo': lo, 'hi': hi, 'objective': desc, 'r': r, 'eps': rng.choice([2e-3, 5e-4, 1e-4, 5e-5, 2e-5]), 'iters': 200000, 'density': None}
+    if rng.random() < 0.35:
+        case.update({'mode': 'batches', 'batch': rng.choice([16, 40, 50]), 'eps': rng.choice([2e-3, 5e-4])})
+    return case, max(desc['slopes'])
+
+
+def wells_case(rng):
+    """1-D: a wide shallow cone, a narrow steep well next to its tip (the estimate M jumps late, when the well is first sampled) and a
+    deeper narrow steep well far away; driven in batches or by Solve"""
+    lo, hi = H.random_box(rng, 1, nice=rng.random() < 0.5)
+    side = hi[0] - lo[0]
+    a = rng.uniform(0.4, 0.65); s0 = rng.choice([0.3, 0.5, 1.0]); L = rng.choice([10.0, 20.0, 40.0])
+    b1 = a + rng.choice([-1, 1]) * rng.uniform(0.005, 0.03); b2 = rng.choice([rng.uniform(0.08, 0.2), rng.uniform(0.85, 0.93)])
+    d1 = 0.05; d2 = rng.choice([0.1, 0.2])
+    u = lambda t: lo[0] + side * t
+    desc = {'kind': 'cones', 'centers': [[u(a)], [u(b1)], [u(b2)]], 'slopes': [s0 / side, L / side, L / side], 'offsets': [0.0, -d1, -d2]}
+    case = {'n': 1, 'lo': lo, 'hi': hi, 'objective': desc, 'r': rng.choice([2.5, 3.0]), 'eps': rng.choice([1e-3, 1e-4]), 'iters': 20000, 'density': None,
+            'mode': rng.choice(['batches', 'batches', 'solve']), 'batch': rng.choice([40, 50])}
+    return case, L / side, -d2
 
 
 def cone_case(rng):
@@ -115,6 +159,11 @@ def cone_case(rng):
     fmin = min(desc['offsets'])
     eps = rng.choice([0.02, 0.01, 0.005]) if n < 3 else rng.choice([0.05, 0.03])
     case = {'n': n, 'lo': lo, 'hi': hi, 'objective': desc, 'r': r, 'eps': eps, 'iters': 4000 if n < 3 else 3000, 'density': None}
+    k = rng.random()
+    if k < 0.3:
+        case.update({'mode': 'batches', 'batch': rng.choice([8, 16, 40, 50])})
+    elif k < 0.45:
+        case.update({'mode': 'refine-early', 'early': rng.choice([3, 6, 12])})
     return case, L0, fmin
 
 
@@ -126,12 +175,12 @@ def run(chk):
                         'box containment and density of images); binary64 rounding is not part of the theorems (tied by the lock-step replay); the search oracle covers N = 1..3',
                         'M in the reliability condition is the estimate in force when the last interval was selected; the reading with the final M is refuted (C01_final_M_reading_refuted) and recorded as a known finding']
     bad, errors = S.lockstep(chk, rng, 60 if thorough else 16, make_case=lambda r_: dict(A.random_case(r_, dims=(1, 1, 2)), eps=r_.choice([0.02, 0.01]), iters=400),
-                             make_script=lambda r_, c: [('solve',)])
+                             make_script=lambda r_, c: [('solve',)] if r_.random() < 0.5 else [('iter', r_.choice([2, 5, 16])), ('iter', r_.choice([1, 7, 30])), ('solve',)])
     found = 0
     stats = {'ok': 0, 'skip': 0, 'final-M-only': 0, 'cond_sel': 0}
     worst = 0.0
-    for _ in range(200 if thorough else 40):
-        case, L0, fmin = cone_case(rng)
+    for i in range(200 if thorough else 40):
+        case, L0, fmin = wells_case(rng) if i % 5 == 4 else cone_case(rng)
         res = O.guarded(lambda c: [evaluate(c, L0, fmin)], case)
         st, info = res[0] if isinstance(res[0], tuple) else ('violation', res[0])
         chk.evaluations += 1
